@@ -376,4 +376,15 @@ def getDependentsForService (p : Proj) (s : Svc) : List String := sortNames (key
 def getDependents (p : Proj) (s : Svc) : List String :=
   p.services.filterMap fun kv => if has s.name kv.2.deps then some kv.2.name else none
 
+/-- all profiles named by the services of a map, in range order, each once (what `Services.GetProfiles` returned
+before its `fix:` commit: the order was Go's map order) -/
+def getProfilesPre (svcs : AL Svc) : List String := (svcs.flatMap fun kv => kv.2.profiles).eraseDups
+
+/-- `Services.GetProfiles` (after the `fix:` commit): the profiles named by the services of the map, each once, sorted -/
+def getProfiles (svcs : AL Svc) : List String := sortNames (getProfilesPre svcs)
+
+/-- `WithSelectedServices(names, options...)`: the options are handed to `ForEachService` as they are -/
+def withSelectedServicesOpts (p : Proj) (names : List String) (opts : List Policy) : Out :=
+  withSelectedServices p names (policyOf opts)
+
 end CV.Sel
